@@ -343,7 +343,6 @@ class HttpParser(abc.ABC, Generic[_MsgT]):
         data_len = len(data)
         start_pos = 0
         loop = self.loop
-        max_line_length = self.max_line_size
 
         should_close = False
         while start_pos < data_len or self._payload_has_more_data:
@@ -361,6 +360,12 @@ class HttpParser(abc.ABC, Generic[_MsgT]):
                     # The remainder now lives in self._tail only. Don't return it.
                     data = EMPTY
                     break
+                # The start line is bound by max_line_size, every further line
+                # of the message by max_field_size; derived from the parser state
+                # so that it does not depend on how the stream is cut into reads.
+                max_line_length = (
+                    self.max_field_size if self._lines else self.max_line_size
+                )
                 pos = data.find(SEP, start_pos)
                 # consume \r\n
                 if pos == start_pos and not self._lines:
@@ -379,8 +384,6 @@ class HttpParser(abc.ABC, Generic[_MsgT]):
                         raise LineTooLong(line[:100] + b"...", max_line_length)
 
                     self._lines.append(line)
-                    # After processing the status/request line, everything is a header.
-                    max_line_length = self.max_field_size
 
                     if len(self._lines) > self.max_headers:
                         raise BadHttpMessage("Too many headers received")
@@ -521,8 +524,10 @@ class HttpParser(abc.ABC, Generic[_MsgT]):
                     # bytes get appended to this line and leak in the error.
                     if b"\n" in self._tail:
                         raise BadHttpMessage("Bad line ending, expected CRLF")
-                    if len(self._tail) > self.max_line_size:
-                        raise LineTooLong(self._tail[:100] + b"...", self.max_line_size)
+                    # A trailing CR may be the first half of the line ending,
+                    # it does not count towards the length of the line.
+                    if len(self._tail) - self._tail.endswith(b"\r") > max_line_length:
+                        raise LineTooLong(self._tail[:100] + b"...", max_line_length)
                     data = EMPTY
                     break
 
@@ -974,7 +979,12 @@ class HttpPayloadParser:
                     max_line_length = self._max_line_size
                     if self._chunk == ChunkState.PARSE_TRAILERS:
                         max_line_length = self._max_field_size
-                    if len(self._chunk_tail) > max_line_length:
+                    # A trailing CR may be the first half of the line ending,
+                    # it does not count towards the length of the line.
+                    if (
+                        len(self._chunk_tail) - self._chunk_tail.endswith(b"\r")
+                        > max_line_length
+                    ):
                         raise LineTooLong(
                             self._chunk_tail[:100] + b"...", max_line_length
                         )
